@@ -199,25 +199,68 @@ Notation item := (K * (Z * R))%type.
 Notation lsh := (@lsh A K R).
 Notation lthread := (@lthread A K R).
 
-(* r was produced by one of the first [calls] invocations, for arguments whose key is k *)
-Definition lproduced (calls : N) (k : K) (r : R) : Prop :=
-  exists a' n, key a' = k /\ (n < calls)%N /\ r = f a' n.
+(* r is the value of a logged invocation made for arguments with key k, when the clock showed at
+   least ts *)
+Definition lprod (log : list (A * Z)) (k : K) (r : R) (ts : Z) : Prop :=
+  exists a' n tc, nth_error log n = Some (a', tc) /\ key a' = k /\ r = f a' (N.of_nat n) /\ (ts <= tc)%Z.
+(* ... and that invocation is within the validity period of the clock value [now] *)
+Definition lhit (log : list (A * Z)) (k : K) (r : R) (now : Z) : Prop :=
+  exists a' n tc, nth_error log n = Some (a', tc) /\ key a' = k /\ r = f a' (N.of_nat n) /\ fresh valid now tc = true.
+(* r is the value of a logged invocation made for exactly a, not before [now] *)
+Definition lown (log : list (A * Z)) (a : A) (r : R) (now : Z) : Prop :=
+  exists n tc, nth_error log n = Some (a, tc) /\ r = f a (N.of_nat n) /\ (now <= tc)%Z.
 
-Lemma lproduced_mono c c' k r : (c <= c')%N -> lproduced c k r -> lproduced c' k r.
-Proof. intros H (a' & n & H1 & H2 & H3). exists a', n. repeat split; auto. lia. Qed.
+Lemma nth_snoc_mono {X} (log : list X) x n v : nth_error log n = Some v -> nth_error (log ++ [x]) n = Some v.
+Proof. intros H. rewrite nth_error_app1; auto. apply nth_error_Some. congruence. Qed.
 
-Definition litem_ok (calls : N) (e : item) : Prop := lproduced calls (fst e) (snd (snd e)).
+Lemma lprod_mono log x k r ts : lprod log k r ts -> lprod (log ++ [x]) k r ts.
+Proof. intros (a' & n & tc & H & H'). exists a', n, tc. split; auto using nth_snoc_mono. Qed.
+Lemma lhit_mono log x k r now : lhit log k r now -> lhit (log ++ [x]) k r now.
+Proof. intros (a' & n & tc & H & H'). exists a', n, tc. split; auto using nth_snoc_mono. Qed.
+Lemma lown_mono log x a r now : lown log a r now -> lown (log ++ [x]) a r now.
+Proof. intros (n & tc & H & H'). exists n, tc. split; auto using nth_snoc_mono. Qed.
 
-Definition lthread_ok (calls : N) (t : lthread) : Prop :=
-  let k := key (lt_arg t) in
+Lemma fresh_mono' now ts tc : (ts <= tc)%Z -> fresh valid now ts = true -> fresh valid now tc = true.
+Proof. unfold fresh. destruct valid; auto. intros H1 H2. apply Z.leb_le in H2. apply Z.leb_le. lia. Qed.
+
+Definition litem_ok (log : list (A * Z)) (e : item) : Prop := lprod log (fst e) (snd (snd e)) (fst (snd e)).
+
+Definition lthread_ok (clock : Z) (log : list (A * Z)) (t : lthread) : Prop :=
+  let a := lt_arg t in
+  let k := key a in
   match lt_pc t with
-  | LStore _ r | LLen r | LPop r | LRet r | LDone (Some r) => lproduced calls k r
-  | _ => True
+  | LTime => True
+  | LKey now | LIterNew now | LIter now _ _ _ | LDel now _ | LGetE now | LCall now => (now <= clock)%Z
+  | LCond now e => (now <= clock)%Z /\ match e with Some (ts, r) => lprod log k r ts | None => True end
+  | LMove now r | LRetHit now r => lhit log k r now
+  | LStore now r | LLen now r | LPop now r | LRet now r => lown log a r now
+  | LDone now hit (Some r) => if hit then lhit log k r now else lown log a r now
+  | LDone _ _ None => True
   end.
 
 Definition linv (st : lsh * list lthread) : Prop :=
-  Forall (litem_ok (ls_calls (fst st))) (ls_items (fst st)) /\
-  Forall (lthread_ok (ls_calls (fst st))) (snd st).
+  ls_calls (fst st) = N.of_nat (length (ls_log (fst st))) /\
+  Forall (litem_ok (ls_log (fst st))) (ls_items (fst st)) /\
+  Forall (lthread_ok (ls_now (fst st)) (ls_log (fst st))) (snd st).
+
+Lemma lthread_ok_mono clock clock' log x t :
+  (clock <= clock')%Z -> lthread_ok clock log t -> lthread_ok clock' (log ++ [x]) t.
+Proof.
+  intros Hc. unfold lthread_ok.
+  destruct (lt_pc t) as [|now|now|now ver pos acc|now ks|now|now e|now r|now r|now|now r|now r|now r|now r|now hit [r|]];
+    auto using lhit_mono, lown_mono; try lia.
+  - intros [H1 H2]. split; [lia|]. destruct e as [[ts r]|]; auto using lprod_mono.
+  - destruct hit; auto using lhit_mono, lown_mono.
+Qed.
+
+Lemma lthread_ok_clock clock clock' log t :
+  (clock <= clock')%Z -> lthread_ok clock log t -> lthread_ok clock' log t.
+Proof.
+  intros Hc. unfold lthread_ok.
+  destruct (lt_pc t) as [|now|now|now ver pos acc|now ks|now|now e|now r|now r|now|now r|now r|now r|now r|now hit [r|]];
+    auto; try lia.
+  intros [H1 H2]. split; [lia|auto].
+Qed.
 
 Lemma Forall_filter' {X} (P : X -> Prop) g l : Forall P l -> Forall P (filter g l).
 Proof. intros H. apply Forall_forall. intros x Hx. apply filter_In in Hx as [Hx _]. rewrite Forall_forall in H. auto. Qed.
@@ -227,14 +270,14 @@ Proof.
   revert i; induction l as [|h t IH]; intros [|j] Hl Hx; cbn; auto; inversion Hl; subst; constructor; auto.
 Qed.
 
-Lemma find_ok calls k (it : list item) e :
-  Forall (litem_ok calls) it -> find (fun e => keqb (fst e) k) it = Some e -> litem_ok calls e /\ fst e = k.
+Lemma find_ok log k (it : list item) e :
+  Forall (litem_ok log) it -> find (fun e => keqb (fst e) k) it = Some e -> litem_ok log e /\ fst e = k.
 Proof.
   intros Hf He. apply find_some in He as [Hin Hk]. apply keqb_spec in Hk. rewrite Forall_forall in Hf. auto.
 Qed.
 
-Lemma set_item_ok calls k v (it : list item) :
-  Forall (litem_ok calls) it -> lproduced calls k (snd v) -> Forall (litem_ok calls) (set_item keqb k v it).
+Lemma set_item_ok log k v (it : list item) :
+  Forall (litem_ok log) it -> lprod log k (snd v) (fst v) -> Forall (litem_ok log) (set_item keqb k v it).
 Proof.
   intros Hf Hv. unfold set_item. destruct (has_key keqb k it).
   - apply Forall_forall. intros x Hx. apply in_map_iff in Hx as (y & Ey & Hy).
@@ -245,89 +288,116 @@ Proof.
 Qed.
 
 Lemma ltstep_inv sh t :
-  Forall (litem_ok (ls_calls sh)) (ls_items sh) -> lthread_ok (ls_calls sh) t ->
+  ls_calls sh = N.of_nat (length (ls_log sh)) ->
+  Forall (litem_ok (ls_log sh)) (ls_items sh) -> lthread_ok (ls_now sh) (ls_log sh) t ->
   let '(sh', t') := ltstep key keqb f mx valid sh t in
-  Forall (litem_ok (ls_calls sh')) (ls_items sh') /\ lthread_ok (ls_calls sh') t' /\ (ls_calls sh <= ls_calls sh')%N.
+  ls_calls sh' = N.of_nat (length (ls_log sh')) /\
+  Forall (litem_ok (ls_log sh')) (ls_items sh') /\ lthread_ok (ls_now sh') (ls_log sh') t' /\
+  ls_now sh' = ls_now sh /\ (ls_log sh' = ls_log sh \/ exists x, ls_log sh' = ls_log sh ++ [x]).
 Proof.
-  intros Hi Ht. destruct t as [a p]. unfold ltstep, lthread_ok in *. cbn [lt_arg lt_pc] in *.
-  destruct p as [|now|now|now ver pos acc|now ks|now|now|now|now|now r|r|r|r|res]; cbn [lt_arg lt_pc].
+  intros Hc Hi Ht. destruct t as [a p]. unfold ltstep, lthread_ok in *. cbn [lt_arg lt_pc] in *.
+  destruct p as [|now|now|now ver pos acc|now ks|now|now e|now r|now r|now|now r|now r|now r|now r|now hit res];
+    cbn [lt_arg lt_pc].
   - repeat split; auto; lia.
-  - repeat split; auto; lia.
-  - repeat split; auto; lia.
-  - destruct (negb (N.eqb ver (ls_ver sh))); [repeat split; auto; lia|].
-    destruct (nth_error (ls_items sh) pos); repeat split; auto; lia.
-  - destruct ks as [|k' rest]; [repeat split; auto; lia|].
-    destruct (has_key keqb k' (ls_items sh)); cbn [bump ls_items ls_calls lt_pc lt_arg]; repeat split; auto; try lia.
+  - repeat split; auto.
+  - repeat split; auto.
+  - destruct (negb (N.eqb ver (ls_ver sh))); [repeat split; auto|].
+    destruct (nth_error (ls_items sh) pos); repeat split; auto.
+  - destruct ks as [|k' rest]; [repeat split; auto|].
+    destruct (has_key keqb k' (ls_items sh)); cbn [bump ls_items ls_calls ls_log ls_now lt_pc lt_arg]; repeat split; auto.
     apply Forall_filter'. exact Hi.
-  - destruct (has_key keqb (key a) (ls_items sh)); repeat split; auto; lia.
-  - destruct (find _ (ls_items sh)) as [e|] eqn:Ef; cbn [bump ls_items ls_calls lt_pc lt_arg]; repeat split; auto; try lia.
+  - (* entry = cache.get(key) *)
+    repeat split; auto.
+    destruct (find (fun e : item => keqb (fst e) (key a)) (ls_items sh)) as [e|] eqn:Ef; cbn [option_map]; auto.
+    destruct (find_ok _ _ _ _ Hi Ef) as [H1 H2]. unfold litem_ok in H1. rewrite H2 in H1.
+    destruct e as [k0 [ts r]]. exact H1.
+  - (* the condition: the entry's own timestamp is compared with the caller's clock reading *)
+    destruct Ht as [Hn He]. destruct e as [[ts r]|]; [|repeat split; auto].
+    destruct (fresh valid now ts) eqn:Efr; cbn [lt_pc lt_arg]; repeat split; auto.
+    destruct He as (a' & n & tc & H1 & H2 & H3 & H4). exists a', n, tc. repeat split; auto.
+    eapply fresh_mono'; eauto.
+  - destruct (find _ (ls_items sh)) as [e|] eqn:Ef; cbn [bump ls_items ls_calls ls_log ls_now lt_pc lt_arg]; repeat split; auto.
     apply Forall_app. split; [apply Forall_filter'; exact Hi|]. constructor; auto.
     eapply find_ok; eauto.
-  - destruct (find _ (ls_items sh)) as [e|] eqn:Ef; cbn [lt_pc lt_arg]; repeat split; auto; try lia.
-    destruct (find_ok _ _ _ _ Hi Ef) as [H1 H2]. unfold litem_ok in H1. rewrite H2 in H1. exact H1.
-  - cbn [ls_items ls_calls]. split; [|split; [|lia]].
-    + eapply Forall_impl; [|exact Hi]. intros e. apply lproduced_mono. lia.
-    + exists a, (ls_calls sh). repeat split; auto. lia.
-  - cbn [bump ls_items ls_calls]. split; [|split; [auto|lia]]. apply set_item_ok; auto.
-  - destruct (Nat.ltb mx (length (ls_items sh))); repeat split; auto; lia.
-  - destruct (ls_items sh) as [|x rest] eqn:El; cbn [bump ls_items ls_calls lt_pc lt_arg]; repeat split; auto; try lia.
+  - repeat split; auto.
+  - (* the call: a new invocation is logged *)
+    cbn [ls_items ls_calls ls_log ls_now]. rewrite app_length. cbn [length].
+    split; [rewrite Hc; lia|]. split.
+    { eapply Forall_impl; [|exact Hi]. intros e. apply lprod_mono. }
+    split; [|split; [auto|right; eauto]].
+    exists (length (ls_log sh)), (ls_now sh). split; [rewrite nth_error_app2, Nat.sub_diag; auto|].
+    split; [rewrite Hc; reflexivity|lia].
+  - cbn [bump ls_items ls_calls ls_log ls_now]. split; auto. split; [|split; [|split; auto]].
+    + apply set_item_ok; auto. destruct Ht as (n & tc & H1 & H2 & H3). exists a, n, tc. cbn. auto.
+    + exact Ht.
+  - destruct (Nat.ltb mx (length (ls_items sh))); repeat split; auto.
+  - destruct (ls_items sh) as [|x rest] eqn:El; cbn [bump ls_items ls_calls ls_log ls_now lt_pc lt_arg]; repeat split; auto.
     + rewrite El. constructor.
     + inversion Hi; auto.
-  - repeat split; auto; lia.
-  - repeat split; auto; lia.
+  - repeat split; auto.
+  - repeat split; auto.
 Qed.
 
 Lemma lcstep_inv st e : linv st -> linv (lcstep key keqb f mx valid st e).
 Proof.
-  intros [Hi Ht]. destruct e as [i|d]; cbn [lcstep].
-  - destruct (nth_error (snd st) i) as [t|] eqn:En; [|split; auto].
-    assert (Hti : lthread_ok (ls_calls (fst st)) t).
+  intros (Hc & Hi & Ht). destruct e as [i|d]; cbn [lcstep].
+  - destruct (nth_error (snd st) i) as [t|] eqn:En; [|repeat split; auto].
+    assert (Hti : lthread_ok (ls_now (fst st)) (ls_log (fst st)) t).
     { rewrite Forall_forall in Ht. apply Ht. eapply nth_error_In; eauto. }
-    pose proof (ltstep_inv (fst st) t Hi Hti) as H.
-    destruct (ltstep key keqb f mx valid (fst st) t) as [sh' t']. destruct H as (H1 & H2 & H3).
-    split; cbn [fst snd]; auto. apply Forall_upd'; auto.
-    eapply Forall_impl; [|exact Ht]. intros u. unfold lthread_ok.
-    destruct (lt_pc u) as [| | | | | | | | |? ?|?|?|?|[?|]]; auto; apply lproduced_mono; auto.
-  - split; cbn [fst snd ls_items ls_calls]; auto.
+    pose proof (ltstep_inv (fst st) t Hc Hi Hti) as H.
+    destruct (ltstep key keqb f mx valid (fst st) t) as [sh' t']. destruct H as (H1 & H2 & H3 & H4 & H5).
+    unfold linv. cbn [fst snd]. split; auto. split; auto. apply Forall_upd'; auto.
+    rewrite H4. destruct H5 as [->|[x ->]]; auto.
+    eapply Forall_impl; [|exact Ht]. intros u. apply lthread_ok_mono. lia.
+  - unfold linv. cbn [fst snd ls_items ls_calls ls_log ls_now]. repeat split; auto.
+    eapply Forall_impl; [|exact Ht]. intros u. apply lthread_ok_clock. lia.
 Qed.
 
 Theorem lcrun_inv sch : forall st, linv st -> linv (lcrun key keqb f mx valid sch st).
 Proof. induction sch as [|e sch IH]; cbn; intros st H; auto. apply IH. apply lcstep_inv. exact H. Qed.
 
-(* every value returned (not raised) under any schedule was produced by f for arguments with the
-   caller's own key *)
-Theorem lru_returns_own_key t0 args sch :
+(* every value returned (not raised) under any schedule is the value of a logged invocation of f for
+   arguments with the caller's own key; when it was served from the cache that invocation ran within
+   the validity period of the clock value the caller read, otherwise it is the caller's own invocation *)
+Theorem lru_returns_own_fresh t0 args sch :
   let st := lcrun key keqb f mx valid sch (mkLS [] 0 t0 0 [], map (fun a => mkLT a LTime) args) in
-  forall t r, In t (snd st) -> lreturned t = Some r ->
-    exists a' n, key a' = key (lt_arg t) /\ (n < ls_calls (fst st))%N /\ r = f a' n.
+  forall t now hit r, In t (snd st) -> lt_pc t = LDone now hit (Some r) ->
+    exists a' n tc, nth_error (ls_log (fst st)) n = Some (a', tc) /\ r = f a' (N.of_nat n) /\
+      key a' = key (lt_arg t) /\
+      if hit then fresh valid now tc = true else a' = lt_arg t.
 Proof.
-  intros st t r Hin Hr.
+  intros st t now hit r Hin Hpc.
   assert (H0 : linv (mkLS [] 0 t0 0 [], map (fun a => mkLT a (@LTime K R)) args)).
-  { split; cbn; [constructor|]. apply Forall_forall. intros u Hu. apply in_map_iff in Hu as (a & <- & _). exact I. }
-  destruct (lcrun_inv sch _ H0) as [_ Hf]. fold st in Hf. rewrite Forall_forall in Hf.
-  specialize (Hf t Hin). unfold lthread_ok in Hf. unfold lreturned in Hr.
-  destruct (lt_pc t) as [| | | | | | | | |? ?|?|?|?|[?|]]; try discriminate. injection Hr as <-. exact Hf.
+  { repeat split; cbn; auto. apply Forall_forall. intros u Hu. apply in_map_iff in Hu as (a & <- & _). exact I. }
+  destruct (lcrun_inv sch _ H0) as (_ & _ & Hf). fold st in Hf. rewrite Forall_forall in Hf.
+  specialize (Hf t Hin). unfold lthread_ok in Hf. rewrite Hpc in Hf. destruct hit.
+  - destruct Hf as (a' & n & tc & H1 & H2 & H3 & H4). exists a', n, tc. auto.
+  - destruct Hf as (n & tc & H1 & H2 & H3). exists (lt_arg t), n, tc. auto.
 Qed.
 
 End LruConcProofs.
 
-(* ---- finding F-C19-2: under interleaving the LRU wrapper can serve a value older than the
-   validity period (the hit path trusts the sweep it made earlier and does not look at the
-   timestamp of the entry it returns) ---- *)
-Definition lru2_init : @lsh carg ckey cres * list (@lthread carg ckey cres) :=
-  (mkLS [] 0 1000 0 [], [mkLT ([1%Z], []) LTime; mkLT ([1%Z], []) LTime]).
+(* ---- finding F-C19-2 (fixed by 76447ff), about the OLD step list: under interleaving the LRU
+   wrapper could serve a value older than the validity period (the hit path trusted the sweep it
+   made earlier and did not look at the timestamp of the entry it returned) ---- *)
+Definition lru2_init : @LruOld.lsh carg ckey cres * list (@LruOld.lthread carg ckey cres) :=
+  (LruOld.mkLS [] 0 1000 0 [], [LruOld.mkLT ([1%Z], []) LruOld.LTime; LruOld.mkLT ([1%Z], []) LruOld.LTime]).
 Definition lru2_sched : list sched :=
   repeat (SStep 0) 7 ++ [STick 6] ++ repeat (SStep 1) 5 ++ [SStep 0] ++ repeat (SStep 1) 2.
 
-Theorem lru_interleaving_stale :
-  let st := lcrun ckey_of ckeqb cf 2 (Some 5%Z) lru2_sched lru2_init in
-  let st' := lcstep ckey_of ckeqb cf 2 (Some 5%Z) st (SStep 1) in
+Theorem lru_old_interleaving_stale :
+  let st := LruOld.lcrun ckey_of ckeqb cf 2 (Some 5%Z) lru2_sched lru2_init in
+  let st' := LruOld.lcstep ckey_of ckeqb cf 2 (Some 5%Z) st (SStep 1) in
   exists t now t' r a' tc,
-    nth_error (snd st) 1 = Some t /\ lt_pc t = LGet now /\            (* about to run: return cache[key][1] *)
-    nth_error (snd st') 1 = Some t' /\ lreturned t' = Some r /\       (* ... returns r *)
-    nth_error (ls_log (fst st')) 0 = Some (a', tc) /\ r = cf a' 0 /\  (* r is the value of invocation 0, made at clock tc *)
-    fresh (Some 5%Z) now tc = false.                                   (* older than the validity period *)
+    nth_error (snd st) 1 = Some t /\ LruOld.lt_pc t = LruOld.LGet now /\
+    nth_error (snd st') 1 = Some t' /\ LruOld.lreturned t' = Some r /\
+    nth_error (LruOld.ls_log (fst st')) 0 = Some (a', tc) /\ r = cf a' 0 /\
+    fresh (Some 5%Z) now tc = false.
 Proof.
   cbv zeta. eexists _, _, _, _, _, _.
   repeat split; vm_compute; reflexivity.
 Qed.
+
+(* the same schedule on the current step list: the second caller recomputes *)
+Definition lru3_init : @lsh carg ckey cres * list (@lthread carg ckey cres) :=
+  (mkLS [] 0 1000 0 [], [mkLT ([1%Z], []) LTime; mkLT ([1%Z], []) LTime]).
